@@ -335,23 +335,67 @@ def run(ctx) -> None:
     pt = base.own_method("_partial_transform")
     dp = base.own_method("_distribution_properties")
     ctx.require(all(x is not None for x in (fpa, pa_, pt, dp)), "EnsembleFromDistributions partition methods not found")
-    keys = [st for st in walk_no_nested(fpa.node) if isinstance(st, ast.Assign) and norm_text(st.targets[0]) == "keys"]
-    ok = len(keys) == 1 and norm_text(keys[0].value) == "tuple(self._distribution_properties.keys())"
-    ctx.check(ok, "R-KEYS", f"{fpa.qualname}:keys", fpa.where, "rebuild keys = keys of _distribution_properties",
-              "rebuild keys are not the keys of self._distribution_properties", key_detail="keys")
-    src = norm_text(pa_.node)
-    ok = "distributions = self._distribution_properties" in src and "zip(distributions.values(), chunks)" in src
-    ctx.check(ok, "R-KEYS", f"{pa_.qualname}:values", pa_.where, "partitions iterate the same dict's values",
-              "_partition_args does not iterate self._distribution_properties.values() zipped with the chunks",
+    def resolve(f, e):
+        """Follow single plain assignments of a local name inside f."""
+        seen = set()
+        while isinstance(e, ast.Name) and e.id not in seen:
+            seen.add(e.id)
+            defs = [st.value for st in walk_no_nested(f.node) if isinstance(st, ast.Assign)
+                    and any(isinstance(t, ast.Name) and t.id == e.id for t in st.targets)]
+            if len(defs) != 1:
+                break
+            e = defs[0]
+        return e
+
+    def dict_views(f):
+        """(view kind, resolved receiver text) of every .keys()/.values()/.items() in f."""
+        out = []
+        for c in walk_no_nested(f.node):
+            if isinstance(c, ast.Call) and isinstance(c.func, ast.Attribute) and c.func.attr in ("keys", "values", "items"):
+                out.append((c.func.attr, norm_text(resolve(f, c.func.value)), c))
+        return out
+
+    parts = [c for c in walk_no_nested(fpa.node) if isinstance(c, ast.Call) and call_name(c) in ("partial", "functools.partial")]
+    ctx.require(len(parts) == 1, "EnsembleFromDistributions._from_partitioned_args: partial(...) not found")
+    kkw = next((kw.value for kw in parts[0].keywords if kw.arg == "keys"), None)
+    ctx.require(kkw is not None, "_from_partitioned_args: keys= not passed to the partial")
+    kexpr = resolve(fpa, kkw)
+    inner = kexpr.args[0] if isinstance(kexpr, ast.Call) and call_name(kexpr) in ("tuple", "list") and kexpr.args else kexpr
+    if isinstance(inner, ast.Call) and isinstance(inner.func, ast.Attribute) and inner.func.attr == "keys":
+        src_txt = norm_text(resolve(fpa, inner.func.value))
+    else:
+        src_txt = norm_text(resolve(fpa, inner))
+    ordered_ok = not any(isinstance(c, ast.Call) and call_name(c) in ("sorted", "reversed", "set") for c in ast.walk(kexpr))
+    ctx.check(src_txt == "self._distribution_properties" and ordered_ok, "R-KEYS", f"{fpa.qualname}:keys", fpa.where,
+              "rebuild keys = keys of _distribution_properties (in order)",
+              f"rebuild keys are `{norm_text(kexpr)}`: not the keys of self._distribution_properties in their order",
+              key_detail="keys")
+    views = [(k_, r_) for k_, r_, _ in dict_views(pa_)]
+    zips = [c for c in walk_no_nested(pa_.node) if isinstance(c, ast.Call) and call_name(c) == "zip"]
+    ok = ("values", "self._distribution_properties") in views and len(zips) == 1 and any(
+        isinstance(a, ast.Call) and isinstance(a.func, ast.Attribute) and a.func.attr == "values" for a in zips[0].args[:1])
+    ordered_ok = not any(isinstance(c, ast.Call) and call_name(c) in ("sorted", "reversed", "set")
+                         for c in walk_no_nested(pa_.node))
+    ctx.check(ok and ordered_ok, "R-KEYS", f"{pa_.qualname}:values", pa_.where,
+              "partitions iterate the same dict's values zipped with the chunks",
+              "_partition_args does not iterate self._distribution_properties.values() (in order) zipped with the chunks",
               key_detail="values")
     loops = [l for l in walk_no_nested(dp.node) if isinstance(l, ast.For)]
     ok = len(loops) == 1 and norm_text(loops[0].iter) == "self._distributions" and "sorted" not in norm_text(dp.node)
     ctx.check(ok, "R-KEYS", f"{dp.qualname}:order", dp.where, "_distribution_properties filters self._distributions in order",
               "_distribution_properties does not preserve the order of self._distributions", key_detail="order")
-    upd = [st for st in walk_no_nested(pt.node) if isinstance(st, ast.Assign) and norm_text(st.targets[0]) == "kwargs"]
-    ok = len(upd) == 1 and isinstance(upd[0].value, ast.Dict) and len(upd[0].value.values) == 2 and \
-        norm_text(upd[0].value.values[0]) == "kwargs" and "zip(keys, args)" in norm_text(upd[0].value.values[1])
+    zips = [c for c in walk_no_nested(pt.node) if isinstance(c, ast.Call) and call_name(c) == "zip" and len(c.args) == 2]
+    ctx.require(len(zips) >= 1, "_partial_transform: zip(keys, args) not found")
+    z = zips[0]
+    first, second = (dotted(a) for a in z.args)
+    ok = first == "keys" and second == "args"
+    # the zipped pairs must override (come after) the copied kwargs
+    dicts = [d for d in walk_no_nested(pt.node) if isinstance(d, ast.Dict) and any(k is None for k in d.keys)]
+    for d in dicts:
+        spreads = [norm_text(v) for k, v in zip(d.keys, d.values) if k is None]
+        if spreads and spreads[0] != "kwargs" and "kwargs" in spreads:
+            ok = False
     ctx.check(ok, "R-KEYS", f"{pt.qualname}:override", pt.where,
               "block values override the copied kwargs under zip(keys, args)",
-              "the rebuilt transform does not take its distribution slices from zip(keys, args) overriding the copied "
-              "kwargs", key_detail="override")
+              f"the rebuilt transform pairs `{norm_text(z)}` / merges {[norm_text(d)[:60] for d in dicts]}: distribution "
+              "slices are not assigned to their own names over the copied kwargs", key_detail="override")
